@@ -550,6 +550,33 @@ fn concatenate_row_and_tag<S: MaliciousShuffleable>(
     )
 }
 
+/// Accessors for the verification harness (test builds with feature `ipa-verif` only).
+#[cfg(all(test, feature = "ipa-verif"))]
+pub(super) fn c05_hash_tags<S: MaliciousShuffleable>(
+    keys: &[Gf32Bit],
+    rows: Vec<S::ShareAndTag>,
+) -> Hash {
+    compute_and_hash_tags::<S, _>(keys, rows)
+}
+
+#[cfg(all(test, feature = "ipa-verif"))]
+pub(super) async fn compute_and_add_tags_for_verif<C, S>(
+    ctx: C,
+    keys: &[AdditiveShare<Gf32Bit>],
+    rows: Vec<S>,
+) -> Result<Vec<AdditiveShare<S::ShareAndTag>>, Error>
+where
+    C: Context,
+    S: MaliciousShuffleable,
+    S::ShareAndTag: SharedValue,
+{
+    Ok(compute_and_add_tags(ctx, keys, rows)
+        .await?
+        .into_iter()
+        .map(AdditiveShare::from)
+        .collect())
+}
+
 #[cfg(all(test, unit_test))]
 mod tests {
     use rand::{Rng, distributions::Standard, prelude::Distribution};
